@@ -104,6 +104,15 @@ class Boss(_Ident, Role[Human], Symbol):
     head_of: Org = None
 
 
+@dataclass(eq=False, repr=False)
+class Envoy(_Ident, Symbol):
+    """Has a field for a sub-sub-property (Chairs < HeadOf < WorksFor < MemberOf) and for the top property, nothing in between."""
+
+    serial: int
+    chairs: Org = None
+    affiliated: List[Org] = field(default_factory=list)
+
+
 @dataclass
 class Member(PropertyDescriptor, HasInverseProperty):
     @classmethod
@@ -129,6 +138,11 @@ class HeadOf(WorksFor):
 
 
 @dataclass
+class Chairs(HeadOf):
+    pass
+
+
+@dataclass
 class SubOrgOf(PropertyDescriptor, TransitiveProperty):
     ...
 
@@ -141,11 +155,13 @@ class PartnerOf(PropertyDescriptor, TransitiveProperty):
 Human.works_for = WorksFor(Human, "works_for")
 Human.member_of = MemberOf(Human, "member_of")
 Boss.head_of = HeadOf(Boss, "head_of")
+Envoy.chairs = Chairs(Envoy, "chairs")
+Envoy.affiliated = MemberOf(Envoy, "affiliated")
 Org.members = Member(Org, "members")
 Org.sub_org_of = SubOrgOf(Org, "sub_org_of")
 Org.partners = PartnerOf(Org, "partners")
 
-ONTOLOGY_CLASSES = {"Org": Org, "Human": Human, "Boss": Boss}
+ONTOLOGY_CLASSES = {"Org": Org, "Human": Human, "Boss": Boss, "Envoy": Envoy}
 
 # The same ontology as a plain table (the reference model reads only this).
 # property name -> {domain class, field, kind, range class, supers (property names), inverse, transitive}
@@ -154,14 +170,19 @@ ONTOLOGY = {
         "Org": {"fields": ["members", "sub_org_of", "partners"], "role_taker": None},
         "Human": {"fields": ["works_for", "member_of"], "role_taker": None},
         "Boss": {"fields": ["head_of"], "role_taker": "human"},
+        "Envoy": {"fields": ["chairs", "affiliated"], "role_taker": None},
     },
+    # property (one per managed field) -> class, field, kind, range, descriptor class, the descriptor classes it
+    # specialises (strict supers), the descriptor class of its inverse, transitivity
     "properties": {
-        "Member": {"cls": "Org", "field": "members", "kind": "set", "range": "Human", "supers": [], "inverse": "MemberOf", "transitive": False},
-        "MemberOf": {"cls": "Human", "field": "member_of", "kind": "list", "range": "Org", "supers": [], "inverse": "Member", "transitive": False},
-        "WorksFor": {"cls": "Human", "field": "works_for", "kind": "single", "range": "Org", "supers": ["MemberOf"], "inverse": "Member", "transitive": False},
-        "HeadOf": {"cls": "Boss", "field": "head_of", "kind": "single", "range": "Org", "supers": ["WorksFor", "MemberOf"], "inverse": "Member", "transitive": False},
-        "SubOrgOf": {"cls": "Org", "field": "sub_org_of", "kind": "list", "range": "Org", "supers": [], "inverse": None, "transitive": True},
-        "PartnerOf": {"cls": "Org", "field": "partners", "kind": "set", "range": "Org", "supers": [], "inverse": None, "transitive": True},
+        "Member": {"cls": "Org", "field": "members", "kind": "set", "range": "Human", "descriptor": "Member", "supers": [], "inverse": "MemberOf", "transitive": False},
+        "MemberOf": {"cls": "Human", "field": "member_of", "kind": "list", "range": "Org", "descriptor": "MemberOf", "supers": [], "inverse": "Member", "transitive": False},
+        "WorksFor": {"cls": "Human", "field": "works_for", "kind": "single", "range": "Org", "descriptor": "WorksFor", "supers": ["MemberOf"], "inverse": "Member", "transitive": False},
+        "HeadOf": {"cls": "Boss", "field": "head_of", "kind": "single", "range": "Org", "descriptor": "HeadOf", "supers": ["WorksFor", "MemberOf"], "inverse": "Member", "transitive": False},
+        "Chairs": {"cls": "Envoy", "field": "chairs", "kind": "single", "range": "Org", "descriptor": "Chairs", "supers": ["HeadOf", "WorksFor", "MemberOf"], "inverse": "Member", "transitive": False},
+        "MemberOfE": {"cls": "Envoy", "field": "affiliated", "kind": "list", "range": "Org", "descriptor": "MemberOf", "supers": [], "inverse": "Member", "transitive": False},
+        "SubOrgOf": {"cls": "Org", "field": "sub_org_of", "kind": "list", "range": "Org", "descriptor": "SubOrgOf", "supers": [], "inverse": None, "transitive": True},
+        "PartnerOf": {"cls": "Org", "field": "partners", "kind": "set", "range": "Org", "descriptor": "PartnerOf", "supers": [], "inverse": None, "transitive": True},
     },
 }
 FIELD_TO_PROPERTY = {(p["cls"], p["field"]): name for name, p in ONTOLOGY["properties"].items()}
